@@ -22,6 +22,6 @@ Extraction "model.ml"
   SrcRun.src_b64_valid SrcRun.iob_state SrcRun.src_load SrcRun.src_export
   SrcRun2.src_hmac SrcRun2.src_cmphmac SrcRun2.src_verify SrcRun2.src_header SrcRun2.src_mode_factory
   CliConc.src_cli_parse CliConc.cli_parse CliConc.abs_pak
-  SrcRun5.src_encrypt_file SrcRun5.src_decrypt_file SrcRun5.src_verify_file SrcRun5.src_history SrcRun6.src_main
+  SrcRun5.src_encrypt_file SrcRun5.src_decrypt_file SrcRun5.src_verify_file SrcRun5.src_history SrcRun5.src_encrypt_snapshots SrcRun6.src_main
   SrcRun4.conc_src_run SrcRun4.conc_output SrcRun4.all_done MiniCConc.enabled_count
   PipeConc.tag_run PipeConc.tag_tr PipeConc.tag_event PipeConc.terminal PipeConc.output PipeConc.crashed PipeConc.enabled_count.
